@@ -182,16 +182,16 @@ class Visitor(Generic[Result]):
             # NamedTuple
             if is_named_tuple(origin):
                 if hasattr(origin, "__annotations__"):
-                    types = resolve_type_hints(origin)
+                    types = resolve_type_hints(tp)
                 # TODO is __field_types for python 3.6 only?
                 elif hasattr(origin, "__field_types"):  # pragma: no cover
                     types = origin.__field_types
                 else:  # pragma: no cover
                     types = {f: Any for f in origin._fields}  # noqa: E501
-                return self.named_tuple(origin, types, origin._field_defaults)
+                return self.named_tuple(tp, types, origin._field_defaults)
         if is_typed_dict(origin):
             required_keys = getattr(origin, "__required_keys__", ())  # py38
-            return self.typed_dict(origin, resolve_type_hints(origin), required_keys)
+            return self.typed_dict(tp, resolve_type_hints(tp), required_keys)
         if is_literal_string(origin):
             return self.primitive(str)
         if is_type_var(origin):
